@@ -207,7 +207,15 @@ def explore_run1(params, chooser):
     out1, snaps, ro = run1(params, chooser)
     states, trans = [], 0
     violation, sig, detail = None, None, None
-    v1 = c01.judge(*c01.get_site(params), c01.ref_opts(ro), params['conc'], out1)
+    if ro.get('sitemaps'):
+        # the reference crawler does not model sitemaps: require a clean run only
+        v1 = None
+        if out1['result'] != 'ok' or out1['exc'] or out1['exit'] != 0:
+            v1 = 'result %s exit %s exc %s' % (out1['result'], out1['exit'], out1['exc'])
+        elif any(r['status'] not in ('done', 'skipped') for r in (out1['rows'] or {}).values()):
+            v1 = 'rows not final'
+    else:
+        v1 = c01.judge(*c01.get_site(params), c01.ref_opts(ro), params['conc'], out1)
     if v1:
         return Outcome(violation='uninterrupted run: ' + v1,
                        signature='C03:baseline:' + v1[:40], obs=dict(env=out1['env_log']),
@@ -267,6 +275,9 @@ def jobs(tier, seed):
                    budget=0, prefix=[]))
     js.append(dict(params=dict(site='fivestart', opts='r', conc=2, input_batch=2),
                    budget=0, prefix=[]))
+    # a start URL that ends up skipped (redirect into a rejected URL) while it already has
+    # queued children (--sitemaps queues /robots.txt and /sitemap.xml before the fetch)
+    js.append(dict(params=dict(site='sitemap', opts='r-sm-rej', conc=1), budget=0, prefix=[]))
     if seed:
         k = seed % len(js)
         js = js[k:] + js[:k]
